@@ -467,7 +467,7 @@ func truncTokens(src string) []string {
 
 func TestC08Random(t *testing.T) {
 	defer silenceAs("random")()
-	col := evid.New("C08", "random", "executed in worker processes that journal every case before running it (a dying process still yields a replay): (a) raw byte strings, token soup and token-level mutations (delete, duplicate, swap, hostile replacement, truncation, splice) of the repository's example scripts; (b) generated valid programs with run-time faults (bad indexes, wrong types, /0, panic(), unknown functions, wrong arity, value-less calls) and unbounded recursion; (c) size/depth stressors of 44 shapes (nesting of ( [ { - ! if else-if while foreach function switch call index, operator chains, long literals, unterminated openers) up to 10^5 (thorough 2*10^6) repetitions, scripts <= 8 MiB; (d) host objects with fields of arbitrary kinds, maps with arbitrary values, nil, typed nil, scalars, channels; per case Prepare, then Dump/Run/Execute twice on each object, then the same on a good object; oracle: no panic leaves Prepare/Run/Execute/Dump, Execute never returns (nil, nil), the process survives; non-trivial = the case reaches the VM or is rejected by the parser below the top level; distinct by case digest")
+	col := evid.New("C08", "random", "executed in worker processes that journal every case before running it (a dying process still yields a replay); part wear: 1-400 failing runs 0-120 calls deep followed by a run needing up to 9000 nested calls must answer like a fresh evaluator; (a) raw byte strings, token soup and token-level mutations (delete, duplicate, swap, hostile replacement, truncation, splice) of the repository's example scripts; (b) generated valid programs with run-time faults (bad indexes, wrong types, /0, panic(), unknown functions, wrong arity, value-less calls) and unbounded recursion; (c) size/depth stressors of 44 shapes (nesting of ( [ { - ! if else-if while foreach function switch call index, operator chains, long literals, unterminated openers) up to 10^5 (thorough 2*10^6) repetitions, scripts <= 8 MiB; (d) host objects with fields of arbitrary kinds, maps with arbitrary values, nil, typed nil, scalars, channels; per case Prepare, then Dump/Run/Execute twice on each object, then the same on a good object; oracle: no panic leaves Prepare/Run/Execute/Dump, Execute never returns (nil, nil), the process survives; non-trivial = the case reaches the VM or is rejected by the parser below the top level; distinct by case digest")
 	replayKnown(t, col, "C08")
 	corpus := c08Corpus()
 	defer clearJournal("random")
